@@ -14,6 +14,7 @@ CHECK = {
         {"fn": P + "vC05_steal", "replay": "model-only", "tiers": ("thorough",)},
         {"fn": P + "vC05_ringStep", "opts": {"feasibility": True, "unwind": 6}, "unused": 0},
     ],
+    "opts_thorough": {"rounds": 5},
     "opts": {"rounds": 3, "unwind": 3, "unwind_mode": "assume", "feasibility": False,
              "loop_bounds": {P + "vC05_steal$1": 5, P + "vC05_steal": 5, P + "vC05_worker": 4}},
     "timeout_ms": {"quick": 400000, "thorough": 1800000},
